@@ -698,7 +698,7 @@ func (g *Gen) run() {
 
 	// lets + requires
 	env := g.entryEnv()
-	if env.pkg != nil {
+	if env.pkg != nil && !g.isRing() {
 		// invariants of package-level state: own package always; other repo packages when this unit works in the
 		// field view and its package (transitively) imports them
 		for pp, invs := range g.eng.cs.PkgInv {
